@@ -17,22 +17,23 @@ variable (kw : List String) (t : Tabs)
 /-- the namespace of `q` only looks at which names `q` has and which child names it has -/
 theorem nsAt_congr' (t : Tabs) {st st' : SM.St} (q : Path)
     (hm : ∀ a x, (st'.mem a q x).isSome = (st.mem a q x).isSome)
-    (hch : ∀ x, x ∈ st'.childNames q ↔ x ∈ st.childNames q) : nsAt t st' q = nsAt t st q := by
+    (hch : ∀ x, x ∈ st'.childNames q ↔ x ∈ st.childNames q) (hg : st'.globals = st.globals) :
+    nsAt t st' q = nsAt t st q := by
   funext x
-  unfold nsAt
+  unfold nsAt nsPlain
   have : (st'.childNames q).contains x = (st.childNames q).contains x := by
     rw [Bool.eq_iff_iff]
     simp only [List.contains_eq_mem, decide_eq_true_eq]
     exact hch x
-  rw [hm .cells x, hm .refs x, this]
+  rw [hm .cells x, hm .refs x, this, hg]
 
 theorem nsAt_changed' (t : Tabs) {st st' : SM.St} (q : Path)
-    (hch : ∀ x, x ∈ st'.childNames q ↔ x ∈ st.childNames q)
+    (hch : ∀ x, x ∈ st'.childNames q ↔ x ∈ st.childNames q) (hg : st'.globals = st.globals)
     (hne : nsAt t st' q ≠ nsAt t st q) : ∃ a x, (st'.mem a q x).isSome ≠ (st.mem a q x).isSome := by
   apply Classical.byContradiction
   intro hc
   apply hne
-  apply nsAt_congr' t q _ hch
+  apply nsAt_congr' t q _ hch hg
   intro a x
   apply Classical.byContradiction
   intro h
@@ -67,7 +68,8 @@ theorem covers_update' {st st' : SM.St} (hi : Inv st) (hi' : Inv st') (ds : List
     (hF : ∀ q, q ∈ st.ids → q ∉ ds → ¬ X q → ∀ a n, st'.mem a q n = st.mem a q n)
     (hD : ∀ a q n, q ∈ ds → st'.defd a q n = st.defd a q n)
     (hC : ∀ q, ¬ X q → (¬ ∀ x, x ∈ st'.childNames q ↔ x ∈ st.childNames q) →
-      Clear.ns (cellsOf t st q) ∈ cl) :
+      Clear.ns (cellsOf t st q) ∈ cl)
+    (hG : st'.globals = st.globals) :
     Covers t st st' cl := by
   have walked : ∀ a q n, q ∈ st.ids → ¬ X q → st'.mem a q n ≠ st.mem a q n → q ∈ ds := by
     intro a q n hq hx hne
@@ -85,7 +87,7 @@ theorem covers_update' {st st' : SM.St} (hi : Inv st) (hi' : Inv st') (ds : List
     by_cases hx : X q
     · exact touchedBy_of_cleared ((hX q hx).1 x hm)
     by_cases hch : ∀ y, y ∈ st'.childNames q ↔ y ∈ st.childNames q
-    · obtain ⟨a', y, hdiff⟩ := nsAt_changed' t q hch hne
+    · obtain ⟨a', y, hdiff⟩ := nsAt_changed' t q hch hG hne
       have hqd : q ∈ ds := walked a' q y hq hx (fun h => hdiff (by rw [h]))
       refine touchedBy_of_ns (L := cellsOf t st q) (hsub _ ?_) (mem_cellsOf t st q x hm)
       cases a' with
@@ -174,7 +176,7 @@ theorem covers_delSpace {st st' : SM.St} (hi : Inv st) (hi' : Inv st') (p : Path
     cases hx : isPrefix p q with
     | false => rfl
     | true => exact absurd ⟨hqi, hx⟩ hnr
-  refine covers_update' t hi hi' (delSpaceUpdated st p) _ (fun q => q ∈ st.ids ∧ isPrefix p q = true) ?_ ?_ ?_ ?_ ?_
+  refine covers_update' t hi hi' (delSpaceUpdated st p) _ (fun q => q ∈ st.ids ∧ isPrefix p q = true) ?_ ?_ ?_ ?_ ?_ D.globals
   · intro k hk
     simp only [clearing, List.mem_append]
     exact Or.inr hk
@@ -399,7 +401,7 @@ theorem covers_renameCells {st st' : SM.St} (hi : Inv st) (hi' : Inv st') (p : P
       exact hne (hother q n hn.1 hn.2)
   refine ⟨?_, ?_, fun q x hne => absurd (hrefs q x) hne, fun q x hne => absurd (hrefs q x) hne⟩
   · intro q x hm hne
-    obtain ⟨a', y, hdiff⟩ := nsAt_changed t q (hs.childNames q) hne
+    obtain ⟨a', y, hdiff⟩ := nsAt_changed t q (hs.childNames q) hs.globals hne
     have hne' : st'.mem a' q y ≠ st.mem a' q y := fun h => hdiff (by rw [h])
     cases a' with
     | refs => exact absurd (hrefs q y) hne'
